@@ -919,6 +919,10 @@ func main() {
 		}
 	}
 	replica.VerifDisableReplicaLoop()
+	if f.Part == "jobs" {
+		runJobsPart(rep, f)
+		return
+	}
 	if f.Part == "race" {
 		runRacePart(rep, f)
 		return
